@@ -276,6 +276,8 @@ def run_case(case, res):
                 check_remove(res, U, p, gen, gw, "frac", nodes, tolname, "direct")
             # a rational curve whose weighted numerator is constant (P_i = 1/w_i): only the weight function resists
             check_remove(res, U, p, [1 / w for w in gw], gw, "frac", nodes, "default", "direct")
+            # very uneven weights (one control point a million times heavier than the others)
+            check_remove(res, U, p, gen, [F(10 ** 6) if i == n // 2 else F(1) for i in range(n)], "frac", nodes, "default", "direct")
             check_remove(res, U, p, gen, None, "float", nodes, "default", "direct")
             check_remove(res, U, p, gen, None, "float", nodes, "none", "direct")
             # float data far from the origin and almost removable: a refined curve moved by 1000, one control point off by 1/32
